@@ -30,9 +30,12 @@ QUICK = [
               "TyNames": "<- TySome", "MaxN": "3", "MaxStk": "3", "MaxStmts": "1"}, None),
     ("cast", {"Fam": "<- FamCast", "LitPool": "<- LitsCast", "Names": "<- Names1", "BinOps": "<- Ops2",
               "MaxN": "3", "MaxStmts": "1"}, None),
-    ("module", {"Fam": "<- FamMod", "LitPool": "<- Lits2", "Names": "<- Names2", "BinOps": "<- Ops2",
-                "FldNames": "<- Flds2", "MaxN": "3", "MaxStk": "2", "MaxCtx": "2", "MaxStmts": "2",
+    ("moddef", {"Fam": "<- FamModDef", "LitPool": "<- Lits2", "Names": "<- Names2", "BinOps": "<- Ops2",
+                "FldNames": "<- Flds2", "MaxN": "5", "MaxStk": "2", "MaxCtx": "2", "MaxStmts": "2",
                 "MaxModStmts": "1"}, None),
+    ("sim", {"Fam": "<- FamSim", "LitPool": "<- LitsMix", "Names": "<- NamesTop", "BinOps": "<- OpsAll",
+             "Prelude": "<- PreSim", "MaxN": "9", "MaxD": "5", "MaxStk": "4", "MaxCtx": "3", "MaxStmts": "4",
+             "MaxModStmts": "2", "Ill0": "1"}, (1500, 70)),
 ]
 
 
